@@ -214,6 +214,34 @@ def gen_syn(t, allow_m=True, max_pts=600, hostile=False, force_m=False, omen=Non
     return spec
 
 
+def normalise(t, spec):
+    """make every list a relative-frequency list, as the trainer writes them: item probability =
+    count/total, so sum(prob * len(values)) == 1 per variable and the base structures sum to 1"""
+    for var, groups in spec["vars"].items():
+        k = len(groups)
+        counts = sorted({t.between(1, 9) for _ in range(k)}, reverse=True)
+        while len(counts) < k:
+            counts.insert(0, counts[0] + t.between(1, 4))
+        total = sum(c * len(g[1]) for c, g in zip(counts, groups))
+        for c, g in zip(counts, groups):
+            g[0] = repr(c / total)
+    base = spec["base"]
+    counts = sorted((t.between(1, 9) for _ in base), reverse=True)
+    total = sum(counts)
+    for c, b in zip(counts, base):
+        b[1] = repr(c / total)
+    if spec.get("omen_prob"):
+        k = len(spec["omen_prob"])
+        counts = sorted({t.between(1, 9) for _ in range(k)}, reverse=True)
+        while len(counts) < k:
+            counts.insert(0, counts[0] + 1)
+        total = sum(counts)
+        for c, e in zip(counts, spec["omen_prob"]):
+            e[1] = repr(c / total)
+    spec["pool"] = "relative-frequency"
+    return spec
+
+
 def _write(path, text, encoding="utf-8"):
     os.makedirs(os.path.dirname(path), exist_ok=True)
     with open(path, "wb") as f:
